@@ -55,7 +55,7 @@ META = {
         'assumptions': ['Kani/CBMC model of rustc MIR semantics', 'filter() is the only reader of variant_count (established by reading the code, re-checked by grep in the driver is NOT done)'],
     },
     'C11': {
-        'bounds': 'merge tree of build_and_merge: 10/11/20/30 samples x thread counts 1, 2, 4, 16 (merge depth 0, 1, 2), one k-mer per sample; pool initialisation: the map/align/distance call sequences of main for threads in {1,2}',
+        'bounds': 'merge tree of build_and_merge: 3 samples (threads 1, 4) and 10 samples (threads 1, 2: serial loop and one split), the recursive split called directly at depth 2 with a non-zero offset on 4 of 6 samples, the join step (merge) for all presence patterns of a 2-key universe; pool initialisation: build from sequence files followed by pseudoalignment for threads in {1,2}',
         'outside': ['every statement about interleavings, schedules and run-to-run nondeterminism: Kani does not model threads; rayon is replaced by its sequential schedule', 'hash-seed dependent iteration order (the hashbrown model iterates in insertion order)', 'ska lo (DashMap/Mutex code)', 'schedule independence of the real parallel code rests on fork-join over disjoint data (Rust aliasing guarantees), not on a result of this check'],
         'assumptions': ['Kani/CBMC model of rustc MIR semantics', 'sequential rayon model; build_global() returns Err the second time it is called in a process (rayon documentation)', 'SkaDict::new replaced by a dictionary provider'],
         'level_text': 'Bounded model checking of the thread-count dependent control flow (merge tree arithmetic and joins, global pool initialisation) under a SEQUENTIAL model of rayon. This is deliberately narrow: nothing about schedules is claimed.',
